@@ -58,6 +58,7 @@ type summary struct {
 	Cases     []uint64          `json:"cases"`
 	Samples   [][]string        `json:"samples"`
 	Digests   map[string]uint64 `json:"digests"`
+	ODigests  map[string]uint64 `json:"odigests"`
 	Tainted   bool              `json:"tainted"`
 	Sites     int               `json:"sites"`
 	Race      bool              `json:"race"`
@@ -376,9 +377,9 @@ func (b *batch) add(s *summary) {
 			b.samples = b.samples[:3]
 		}
 	}
-	for k, v := range s.Digests {
+	for k, v := range s.ODigests {
 		i, _ := strconv.Atoi(k)
-		b.digests[i] = v
+		b.digests[i] = v // the batch keeps OUTCOME digests (R-order compares outcomes, not schedules)
 	}
 	if s.Sites > 0 {
 		b.sites = s.Sites
